@@ -286,6 +286,8 @@ def run(prog, tier):
     obs.extend(dtype_hazard_obligations(prog, "float-arithmetic", ['inference/gp/regression.py', 'inference/gp/mean.py', 'inference/gp/covariance.py']))
     from .common import call_order_obligations
     obs.extend(call_order_obligations(prog, "arguments-in-order", ['inference/gp/regression.py', 'inference/gp/mean.py', 'inference/gp/covariance.py']))
+    from .common import identity_memo_obligations
+    obs.extend(identity_memo_obligations(prog, "result-keyed-on-values", ['inference/gp/regression.py', 'inference/gp/mean.py', 'inference/gp/covariance.py']))
 
     obs.append(refresh_obligation(prog, "state-refreshed", "GpRegressor", "set_hyperparameters"))
 
